@@ -739,6 +739,15 @@ read_more:
 		}
 	}
 finish:
+	if (total == 0 && ravail == 0 && (uudecode->state == ST_READ_UU ||
+	    uudecode->state == ST_READ_BASE64)) {
+		/* The input ended inside the encoded body: returning 0 here
+		 * would report a clean end of data for a truncated stream. */
+		archive_set_error(&self->archive->archive,
+		    ARCHIVE_ERRNO_FILE_FORMAT,
+		    "Truncated uuencoded data: missing end marker");
+		return (ARCHIVE_FATAL);
+	}
 	if (ravail < avail_in)
 		used -= avail_in - ravail;
 	__archive_read_filter_consume(self->upstream, used);
